@@ -432,6 +432,19 @@ def run(res):
         if not ok:
             res.violation("multidir-read-differs", "reading over several top-level directories is not the union of their samples", hist,
                           [(a, len(t)) for a, t in want], [(int(k), len(v)) for k, v in sorted(got.items())])
+        # ---- per-sample properties: every recorded period answers for its first sample, whichever directory holds it and
+        #      whatever lies around it in the other directories
+        for _k, st_, _ops in periods:
+            res.count("multidir-per-sample-properties")
+            try:
+                pr = rd.get_properties("ch", sample=st_)
+                okp = int(pr["sample_rate_numerator"]) == cfg.n
+            except Exception as e:  # noqa
+                okp, pr = False, repr(e)[:200]
+            if not okp:
+                res.violation("multidir-per-sample-properties-missing", "get_properties(channel, sample=) fails for a written sample of a "
+                              "channel spread over several top-level directories", dict(hist, sample=st_), "the properties of its file", str(pr)[:200])
+                break
         # ---- windows: edges of the runs and of the directories' periods, single samples; the block map
         #      reported without reading data must agree
         runs = wl.runs_of(exp)
